@@ -119,6 +119,10 @@ def _register():
         return None if x % 2 else x
     for t in (int, decimal.Decimal):
         query_env.function([t], t, name='vnullodd')(vnullodd)
+    # harness-owned overloads: the registry translator (gen_registry.collect) leaves them out
+    for n in ('vyield', 'vnullodd'):
+        for f in query_env.query_compile.FUNCTIONS[n]:
+            f.__verif_harness__ = True
 
 
 _register()
